@@ -55,12 +55,12 @@ type sentSigned struct {
 
 type IngressWorld struct {
 	*SysWorld
-	Model    *Model
-	nonces   map[string]map[string]*nonceRec // route -> nonce -> record (life of the node)
-	limiters map[string]*refLimiter          // "" global, else route path
-	seq      int
-	prop     string
-	sent     []sentSigned
+	Model     *Model
+	nonces    map[string]map[string]*nonceRec // route -> nonce -> record (life of the node)
+	limiters  map[string]*refLimiter          // "" global, else route path
+	seq       int
+	prop      string
+	sent      []sentSigned
 	tolRaised map[string]bool // routes whose hmac tolerance a reload has raised
 }
 
